@@ -27,8 +27,12 @@ def project(ns):
         k = n[0]
         if k in ("t", "v", "r", "m"):
             out.append(n)
+        elif k == "s":
+            out.append(("s", n[1], project(n[2])))
         elif k == "f":
             out.append(("f", n[1], project(n[2]), [(e, project(b)) for (e, b) in n[3]]))
+        elif k == "i":
+            out.append(("i", n[1], project(n[2]), None if n[3] is None else project(n[3])))
         elif k == "l":
             out.append(("l", n[1], n[2], n[3], n[4], project(n[5])))
         else:
